@@ -47,3 +47,11 @@ for k, src in CASES.items():
     except BaseException as e:
         r = 'RAISED %s: %s' % (type(e).__name__, e)
     print('%-26s %s' % (k, r))
+# function-level variants (C02: the missed definition is also reported as unused, W01)
+FN_CASES = {
+ 'while_body_test_fn': "def f(x):\n    while x < 2 and (x == 0 or y):\n        y = 1\n        x += 1\n",
+ 'while_test_test_fn': "def f(x):\n    while (x and z and False) or ((z := 1) and x < 2):\n        x += 1\n",
+ 'except_type_fn': "def f(g):\n    try:\n        E = KeyError\n        g()\n    except E:\n        pass\n",
+}
+for k, src in FN_CASES.items():
+    print('%-26s %s' % (k, [x[:4] for x in lint(P, src, '/nonexistent/t.py')]))
